@@ -1,17 +1,9 @@
 (* Lemmas about the model of fix_int.go. *)
 From Coq Require Import ZArith List Bool Lia ZifyBool.
 From QF Require Import Base.Res Base.Bytes Codec.FixInt.
+From QF Require Export Codec.FixIntSpec.
 Import ListNotations.
 Open Scope Z_scope.
-
-(* FIX int grammar: -?[0-9]+ *)
-Definition all_digits (s : bytes) : bool := forallb is_digit s.
-Definition int_grammar (s : bytes) : bool :=
-  match s with
-  | [] => false
-  | c :: r => if c =? MINUS then negb (Nat.eqb (length r) 0) && all_digits r
-              else all_digits s
-  end.
 
 Lemma digit_test (c : Z) : (c <? CH0) || (c >? CH9) = negb (is_digit c).
 Proof. unfold is_digit, CH0, CH9. lia. Qed.
@@ -81,4 +73,389 @@ Proof.
     cbn [length Nat.eqb negb andb] in H. unfold parse_uint.
     rewrite (parse_uint_loop_nondigits _ 0 H). eauto.
   - unfold parse_uint. rewrite (parse_uint_loop_nondigits _ 0 H). eauto.
+Qed.
+
+(* ------------------------------------------------------------------ *)
+(* value of accepted texts                                             *)
+
+Lemma is_digit_range (c : Z) : is_digit c = true -> 0 <= c - CH0 <= 9.
+Proof. unfold is_digit, CH0, CH9. lia. Qed.
+
+Lemma wrap64_small (z : Z) : in_int64 z -> wrap64 z = z.
+Proof.
+  unfold in_int64, wrap64, two63, two64. intros H.
+  rewrite Z.mod_small; lia.
+Qed.
+
+Lemma dec_value_bounds : forall d n, all_digits d = true -> 0 <= n ->
+  n * 10 ^ Z.of_nat (length d) <= dec_value d n < (n + 1) * 10 ^ Z.of_nat (length d).
+Proof.
+  induction d as [|c r IH]; intros n Hd Hn.
+  - cbn [length dec_value]. change (10 ^ Z.of_nat 0) with 1. lia.
+  - cbn [all_digits forallb] in Hd. apply andb_true_iff in Hd as [Hc Hr].
+    apply is_digit_range in Hc. cbn [dec_value length].
+    rewrite Nat2Z.inj_succ, Z.pow_succ_r by lia.
+    assert (Hp : 0 < 10 ^ Z.of_nat (length r)) by (apply Z.pow_pos_nonneg; lia).
+    specialize (IH (n * 10 + (c - CH0)) Hr ltac:(lia)).
+    nia.
+Qed.
+
+Lemma dec_value_nonneg : forall d, all_digits d = true -> 0 <= dec_value d 0.
+Proof.
+  intros d H. pose proof (dec_value_bounds d 0 H ltac:(lia)) as Hbd. lia.
+Qed.
+
+(* the fast path never wraps: at most 18 digits *)
+Lemma parse_uint_loop_value : forall d n, all_digits d = true -> 0 <= n ->
+  (n + 1) * 10 ^ Z.of_nat (length d) <= 10 ^ 18 ->
+  parse_uint_loop d n = Ok (dec_value d n).
+Proof.
+  induction d as [|c r IH]; intros n Hd Hn Hb.
+  - reflexivity.
+  - cbn [all_digits forallb] in Hd. apply andb_true_iff in Hd as [Hc Hr].
+    cbn [parse_uint_loop dec_value]. rewrite digit_test, Hc. cbn [negb].
+    apply is_digit_range in Hc.
+    cbn [length] in Hb. rewrite Nat2Z.inj_succ, Z.pow_succ_r in Hb by lia.
+    assert (Hp : 0 < 10 ^ Z.of_nat (length r)) by (apply Z.pow_pos_nonneg; lia).
+    assert (Hsmall : (n + 1) * 10 <= 10 ^ 18) by nia.
+    rewrite wrap64_small.
+    + apply IH; [exact Hr | lia | nia].
+    + unfold in_int64, two63. change (10 ^ 18) with 1000000000000000000 in Hsmall. lia.
+Qed.
+
+Lemma pow10_le_18 (k : nat) : (k <= 18)%nat -> 10 ^ Z.of_nat k <= 10 ^ 18.
+Proof. intros H. apply Z.pow_le_mono_r; lia. Qed.
+
+Lemma parse_uint_value : forall d, all_digits d = true -> d <> [] -> (length d <= 18)%nat ->
+  parse_uint d = Ok (dec_value d 0) /\ 0 <= dec_value d 0 < 10 ^ 18.
+Proof.
+  intros d Hd Hne Hl. split.
+  - destruct d as [|c r]; [congruence|]. unfold parse_uint.
+    apply parse_uint_loop_value; [exact Hd | lia |].
+    pose proof (pow10_le_18 _ Hl). lia.
+  - pose proof (dec_value_bounds d 0 Hd ltac:(lia)) as Hbd.
+    pose proof (pow10_le_18 _ Hl). lia.
+Qed.
+
+Lemma int_grammar_cases : forall c r, int_grammar (c :: r) = true ->
+  (c = MINUS /\ r <> [] /\ all_digits r = true) \/ (c <> MINUS /\ all_digits (c :: r) = true).
+Proof.
+  intros c r H. cbn [int_grammar] in H. destruct (c =? MINUS) eqn:Hm.
+  - left. apply andb_true_iff in H as [H1 H2]. split; [lia|]. split; [|exact H2].
+    destruct r; [discriminate | discriminate].
+  - right. split; [lia | exact H].
+Qed.
+
+Lemma atoi_fast_value : forall d, int_grammar d = true -> (length d <= 18)%nat ->
+  atoi d = Ok (int_value d) /\ - 10 ^ 18 < int_value d < 10 ^ 18.
+Proof.
+  intros [|c r] Hg Hl; [discriminate|].
+  cbn [atoi]. replace (Nat.ltb MAX_FAST_DIGITS (length (c :: r))) with false
+    by (symmetry; apply Nat.ltb_ge; exact Hl).
+  destruct (int_grammar_cases c r Hg) as [(Hc & Hne & Hd) | (Hc & Hd)].
+  - subst c. cbn [int_value]. rewrite Z.eqb_refl.
+    cbn [length] in Hl.
+    destruct (parse_uint_value r Hd Hne ltac:(lia)) as [Hp Hb]. rewrite Hp.
+    split; [|lia]. f_equal. rewrite wrap64_small; [lia|].
+    unfold in_int64, two63. change (10 ^ 18) with 1000000000000000000 in Hb. lia.
+  - cbn [int_value]. replace (c =? MINUS) with false by lia.
+    destruct (parse_uint_value (c :: r) Hd ltac:(discriminate) Hl) as [Hp Hb].
+    split; [exact Hp | lia].
+Qed.
+
+Lemma atoi_long_charset_of_grammar : forall d, int_grammar d = true -> atoi_long_charset_ok d = true.
+Proof.
+  intros [|c r] Hg; [reflexivity|].
+  destruct (int_grammar_cases c r Hg) as [(Hc & Hne & Hd) | (Hc & Hd)]; cbn [atoi_long_charset_ok].
+  - subst c. rewrite Z.eqb_refl, orb_true_r. exact Hd.
+  - cbn [all_digits forallb] in Hd. apply andb_true_iff in Hd as [H1 H2]. rewrite H1. exact H2.
+Qed.
+
+Lemma atoi_long_value : forall d, int_grammar d = true ->
+  atoi_long d = if in_int64b (int_value d) then Ok (int_value d) else Err E_RANGE.
+Proof.
+  intros d Hg. unfold atoi_long. rewrite (atoi_long_charset_of_grammar d Hg). cbn [negb].
+  destruct d as [|c r]; [discriminate|].
+  destruct (int_grammar_cases c r Hg) as [(Hc & Hne & Hd) | (Hc & Hd)]; cbn [int_value].
+  - subst c. rewrite Z.eqb_refl. destruct r; [congruence | reflexivity].
+  - replace (c =? MINUS) with false by lia. reflexivity.
+Qed.
+
+(* FIXInt.Read on every grammatical text: its value when that is an int64, an error otherwise *)
+Lemma atoi_grammar_value : forall d, int_grammar d = true ->
+  atoi d = if in_int64b (int_value d) then Ok (int_value d) else Err E_RANGE.
+Proof.
+  intros d Hg. destruct (Nat.leb (length d) 18) eqn:Hl.
+  - apply Nat.leb_le in Hl. destruct (atoi_fast_value d Hg Hl) as [H1 H2]. rewrite H1.
+    replace (in_int64b (int_value d)) with true; [reflexivity|].
+    unfold in_int64b, two63. change (10 ^ 18) with 1000000000000000000 in H2. lia.
+  - apply Nat.leb_gt in Hl. destruct d as [|c r]; [discriminate|]. cbn [atoi].
+    replace (Nat.ltb MAX_FAST_DIGITS (length (c :: r))) with true
+      by (symmetry; apply Nat.ltb_lt; exact Hl).
+    apply atoi_long_value; exact Hg.
+Qed.
+
+Lemma atoi_short_value : forall d, int_grammar d = true -> (length d <= 18)%nat -> atoi d = Ok (int_value d).
+Proof. intros d Hg Hl. apply (atoi_fast_value d Hg Hl). Qed.
+
+Lemma atoi_long_accepts_iff : forall d, int_grammar d = true -> (18 < length d)%nat ->
+  (atoi d = Ok (int_value d) <-> in_int64 (int_value d)) /\
+  (~ in_int64 (int_value d) -> atoi d = Err E_RANGE).
+Proof.
+  intros d Hg _. rewrite (atoi_grammar_value d Hg).
+  unfold in_int64. destruct (in_int64b (int_value d)) eqn:Hr; unfold in_int64b in Hr.
+  - split; [split; [lia | reflexivity] | lia].
+  - split; [split; [discriminate | lia] | reflexivity].
+Qed.
+
+(* accept <=> grammar and range, for every byte string *)
+Lemma atoi_spec : forall d, atoi d = match int_read_spec d with Some z => Ok z | None => atoi d end
+  /\ (int_read_spec d = None -> exists e, atoi d = Err e).
+Proof.
+  intros d. unfold int_read_spec. destruct (int_grammar d) eqn:Hg; cbn [andb].
+  - rewrite (atoi_grammar_value d Hg). destruct (in_int64b (int_value d)); split; eauto; discriminate.
+  - split; [reflexivity|]. intros _. apply atoi_rejects_nongrammar; exact Hg.
+Qed.
+
+Lemma atoi_ok_iff : forall d z, atoi d = Ok z <-> int_read_spec d = Some z.
+Proof.
+  intros d z. unfold int_read_spec. destruct (int_grammar d) eqn:Hg; cbn [andb].
+  - rewrite (atoi_grammar_value d Hg). destruct (in_int64b (int_value d)); split; congruence.
+  - destruct (atoi_rejects_nongrammar d Hg) as [e He]. rewrite He. split; discriminate.
+Qed.
+
+(* ------------------------------------------------------------------ *)
+(* itoa (strconv.AppendInt through Coq's decimal library) and the round trips *)
+From Coq Require Import Decimal DecimalZ DecimalPos DecimalN DecimalFacts.
+
+Lemma of_uint_acc_dec_value : forall u acc,
+  Z.pos (Pos.of_uint_acc u acc) = dec_value (uint_bytes u) (Z.pos acc).
+Proof.
+  induction u; intros acc; cbn [Pos.of_uint_acc uint_bytes dec_value]; try reflexivity;
+    rewrite IHu; f_equal; unfold CH0; lia.
+Qed.
+
+Lemma of_uint_dec_value : forall u, Z.of_uint u = dec_value (uint_bytes u) 0.
+Proof.
+  unfold Z.of_uint.
+  induction u; cbn [Pos.of_uint uint_bytes dec_value].
+  - reflexivity.
+  - rewrite IHu. reflexivity.
+  - cbn [Z.of_N]. rewrite of_uint_acc_dec_value. reflexivity.
+  - cbn [Z.of_N]. rewrite of_uint_acc_dec_value. reflexivity.
+  - cbn [Z.of_N]. rewrite of_uint_acc_dec_value. reflexivity.
+  - cbn [Z.of_N]. rewrite of_uint_acc_dec_value. reflexivity.
+  - cbn [Z.of_N]. rewrite of_uint_acc_dec_value. reflexivity.
+  - cbn [Z.of_N]. rewrite of_uint_acc_dec_value. reflexivity.
+  - cbn [Z.of_N]. rewrite of_uint_acc_dec_value. reflexivity.
+  - cbn [Z.of_N]. rewrite of_uint_acc_dec_value. reflexivity.
+  - cbn [Z.of_N]. rewrite of_uint_acc_dec_value. reflexivity.
+Qed.
+
+Lemma uint_bytes_digits : forall u, all_digits (uint_bytes u) = true.
+Proof. induction u; cbn; auto. Qed.
+
+Lemma uint_bytes_nonnil : forall u, u <> Nil -> uint_bytes u <> [].
+Proof. destruct u; cbn; congruence. Qed.
+
+Lemma to_int_cases : forall z, exists u, u <> Nil /\
+  ((0 <= z /\ Z.to_int z = Pos u) \/ (z < 0 /\ Z.to_int z = Neg u)).
+Proof.
+  intros [|p|p]; cbn [Z.to_int].
+  - exists zero. split; [discriminate | left; split; [lia | reflexivity]].
+  - exists (Pos.to_uint p). split; [apply Unsigned.to_uint_nonnil | left; split; [lia | reflexivity]].
+  - exists (Pos.to_uint p). split; [apply Unsigned.to_uint_nonnil | right; split; [lia | reflexivity]].
+Qed.
+
+Lemma digits_head_not_minus : forall c r, all_digits (c :: r) = true -> (c =? MINUS) = false.
+Proof.
+  intros c r H. cbn in H. apply andb_true_iff in H as [H _]. unfold is_digit, CH0, CH9, MINUS in *. lia.
+Qed.
+
+Lemma itoa_int_grammar : forall z, int_grammar (itoa z) = true.
+Proof.
+  intros z. unfold itoa. destruct (to_int_cases z) as (u & Hu & [[_ E] | [_ E]]); rewrite E.
+  - pose proof (uint_bytes_digits u) as Hd. pose proof (uint_bytes_nonnil u Hu) as Hn.
+    destruct (uint_bytes u) as [|c r] eqn:Eb; [congruence|].
+    cbn [int_grammar]. rewrite (digits_head_not_minus c r Hd). exact Hd.
+  - cbn [int_grammar]. rewrite Z.eqb_refl.
+    pose proof (uint_bytes_nonnil u Hu) as Hn. rewrite uint_bytes_digits, andb_true_r.
+    destruct (uint_bytes u); [congruence | reflexivity].
+Qed.
+
+Lemma int_value_itoa : forall z, int_value (itoa z) = z.
+Proof.
+  intros z. rewrite <- (DecimalZ.of_to z) at 2. unfold itoa.
+  destruct (to_int_cases z) as (u & Hu & [[_ E] | [_ E]]); rewrite E; cbn [Z.of_int].
+  - pose proof (uint_bytes_digits u) as Hd. pose proof (uint_bytes_nonnil u Hu) as Hn.
+    rewrite of_uint_dec_value.
+    destruct (uint_bytes u) as [|c r] eqn:Eb; [congruence|].
+    cbn [int_value]. rewrite (digits_head_not_minus c r Hd). reflexivity.
+  - cbn [int_value]. rewrite Z.eqb_refl, of_uint_dec_value. reflexivity.
+Qed.
+
+Lemma itoa_nonempty : forall z, itoa z <> [].
+Proof.
+  intros z H. pose proof (itoa_int_grammar z) as G. rewrite H in G. discriminate.
+Qed.
+
+Lemma itoa_all_digits_nonneg : forall z, 0 <= z -> all_digits (itoa z) = true.
+Proof.
+  intros z Hz. unfold itoa. destruct (to_int_cases z) as (u & Hu & [[_ E] | [Hneg E]]); rewrite E.
+  - apply uint_bytes_digits.
+  - lia.
+Qed.
+
+Lemma itoa_bytes : forall z c, In c (itoa z) -> c = MINUS \/ is_digit c = true.
+Proof.
+  intros z c Hin. unfold itoa in Hin.
+  assert (Hd : forall u, In c (uint_bytes u) -> is_digit c = true).
+  { intros u Hu. pose proof (uint_bytes_digits u) as A. unfold all_digits in A.
+    rewrite forallb_forall in A. apply A; exact Hu. }
+  destruct (Z.to_int z) as [u|u].
+  - right. eapply Hd; exact Hin.
+  - destruct Hin as [Hc | Hin]; [left; symmetry; exact Hc | right; eapply Hd; exact Hin].
+Qed.
+
+(* write then read *)
+Lemma atoi_itoa : forall z, in_int64 z -> atoi (itoa z) = Ok z.
+Proof.
+  intros z Hz. rewrite (atoi_grammar_value _ (itoa_int_grammar z)), int_value_itoa.
+  replace (in_int64b z) with true; [reflexivity|].
+  unfold in_int64 in Hz. unfold in_int64b. lia.
+Qed.
+
+(* read then write: canonical texts are reproduced *)
+Fixpoint bytes_uint (s : bytes) : Decimal.uint :=
+  match s with
+  | [] => Nil
+  | c :: r =>
+      let u := bytes_uint r in
+      if c =? 48 then D0 u else if c =? 49 then D1 u else if c =? 50 then D2 u else if c =? 51 then D3 u
+      else if c =? 52 then D4 u else if c =? 53 then D5 u else if c =? 54 then D6 u else if c =? 55 then D7 u
+      else if c =? 56 then D8 u else D9 u
+  end.
+
+Lemma uint_bytes_bytes_uint : forall s, all_digits s = true -> uint_bytes (bytes_uint s) = s.
+Proof.
+  induction s as [|c r IH]; intros H; [reflexivity|].
+  cbn [all_digits forallb] in H. apply andb_true_iff in H as [Hc Hr].
+  cbn [bytes_uint]. specialize (IH Hr).
+  unfold is_digit, CH0, CH9 in Hc.
+  destruct (c =? 48) eqn:E0; [cbn [uint_bytes]; rewrite IH; f_equal; lia|].
+  destruct (c =? 49) eqn:E1; [cbn [uint_bytes]; rewrite IH; f_equal; lia|].
+  destruct (c =? 50) eqn:E2; [cbn [uint_bytes]; rewrite IH; f_equal; lia|].
+  destruct (c =? 51) eqn:E3; [cbn [uint_bytes]; rewrite IH; f_equal; lia|].
+  destruct (c =? 52) eqn:E4; [cbn [uint_bytes]; rewrite IH; f_equal; lia|].
+  destruct (c =? 53) eqn:E5; [cbn [uint_bytes]; rewrite IH; f_equal; lia|].
+  destruct (c =? 54) eqn:E6; [cbn [uint_bytes]; rewrite IH; f_equal; lia|].
+  destruct (c =? 55) eqn:E7; [cbn [uint_bytes]; rewrite IH; f_equal; lia|].
+  destruct (c =? 56) eqn:E8; [cbn [uint_bytes]; rewrite IH; f_equal; lia|].
+  cbn [uint_bytes]; rewrite IH; f_equal; lia.
+Qed.
+
+Lemma bytes_uint_head0 : forall c r, (c =? CH0) = true -> bytes_uint (c :: r) = D0 (bytes_uint r).
+Proof. intros c r H. cbn [bytes_uint]. unfold CH0 in H. rewrite H. reflexivity. Qed.
+
+Lemma unorm_nonzero_head : forall c r, is_digit c = true -> (c =? CH0) = false ->
+  unorm (bytes_uint (c :: r)) = bytes_uint (c :: r).
+Proof.
+  intros c r Hd H0. cbn [bytes_uint]. unfold CH0 in H0. rewrite H0.
+  destruct (c =? 49); [reflexivity|]. destruct (c =? 50); [reflexivity|]. destruct (c =? 51); [reflexivity|].
+  destruct (c =? 52); [reflexivity|]. destruct (c =? 53); [reflexivity|]. destruct (c =? 54); [reflexivity|].
+  destruct (c =? 55); [reflexivity|]. destruct (c =? 56); [reflexivity|]. reflexivity.
+Qed.
+
+Lemma itoa_canonical : forall s, canonical_int s = true -> itoa (int_value s) = s.
+Proof.
+  intros [|c r] H; [discriminate|]. cbn [canonical_int int_value] in *.
+  destruct (c =? MINUS) eqn:Hm.
+  - destruct r as [|c2 r2]; [discriminate|]. apply andb_true_iff in H as [H0 Hd].
+    apply negb_true_iff in H0.
+    assert (Hc2 : is_digit c2 = true) by (cbn in Hd; apply andb_true_iff in Hd; tauto).
+    rewrite <- (uint_bytes_bytes_uint (c2 :: r2) Hd) at 1.
+    rewrite <- of_uint_dec_value.
+    change (- Z.of_uint (bytes_uint (c2 :: r2))) with (Z.of_int (Neg (bytes_uint (c2 :: r2)))).
+    unfold itoa. rewrite DecimalZ.to_of. cbn [norm].
+    assert (Hnz : nzhead (bytes_uint (c2 :: r2)) = bytes_uint (c2 :: r2)).
+    { cbn [bytes_uint]. unfold CH0 in H0. rewrite H0.
+      destruct (c2 =? 49); [reflexivity|]. destruct (c2 =? 50); [reflexivity|]. destruct (c2 =? 51); [reflexivity|].
+      destruct (c2 =? 52); [reflexivity|]. destruct (c2 =? 53); [reflexivity|]. destruct (c2 =? 54); [reflexivity|].
+      destruct (c2 =? 55); [reflexivity|]. destruct (c2 =? 56); [reflexivity|]. reflexivity. }
+    rewrite Hnz.
+    assert (Hneg : match bytes_uint (c2 :: r2) with
+                   | Nil => Pos zero | D0 u => Neg (D0 u) | D1 u => Neg (D1 u) | D2 u => Neg (D2 u)
+                   | D3 u => Neg (D3 u) | D4 u => Neg (D4 u) | D5 u => Neg (D5 u) | D6 u => Neg (D6 u)
+                   | D7 u => Neg (D7 u) | D8 u => Neg (D8 u) | D9 u => Neg (D9 u) end
+                   = Neg (bytes_uint (c2 :: r2))).
+    { cbn [bytes_uint]. unfold CH0 in H0. rewrite H0.
+      destruct (c2 =? 49); [reflexivity|]. destruct (c2 =? 50); [reflexivity|]. destruct (c2 =? 51); [reflexivity|].
+      destruct (c2 =? 52); [reflexivity|]. destruct (c2 =? 53); [reflexivity|]. destruct (c2 =? 54); [reflexivity|].
+      destruct (c2 =? 55); [reflexivity|]. destruct (c2 =? 56); [reflexivity|]. reflexivity. }
+    rewrite Hneg. rewrite (uint_bytes_bytes_uint _ Hd). f_equal. lia.
+  - apply andb_true_iff in H as [Hd H0].
+    assert (Hc : is_digit c = true) by (cbn in Hd; apply andb_true_iff in Hd; tauto).
+    rewrite <- (uint_bytes_bytes_uint (c :: r) Hd) at 1.
+    rewrite <- of_uint_dec_value.
+    change (Z.of_uint (bytes_uint (c :: r))) with (Z.of_int (Pos (bytes_uint (c :: r)))).
+    unfold itoa. rewrite DecimalZ.to_of. cbn [norm].
+    assert (Hun : unorm (bytes_uint (c :: r)) = bytes_uint (c :: r)).
+    { destruct (c =? CH0) eqn:E0.
+      - cbn [negb orb] in H0. destruct r; [|discriminate].
+        rewrite bytes_uint_head0 by exact E0. reflexivity.
+      - apply unorm_nonzero_head; assumption. }
+    rewrite Hun. apply uint_bytes_bytes_uint; exact Hd.
+Qed.
+
+Lemma canonical_is_grammar : forall s, canonical_int s = true -> int_grammar s = true.
+Proof.
+  intros [|c r] H; [discriminate|]. cbn [canonical_int int_grammar] in *.
+  destruct (c =? MINUS).
+  - destruct r as [|c2 r2]; [discriminate|]. apply andb_true_iff in H as [_ H]. rewrite H. reflexivity.
+  - apply andb_true_iff in H as [H _]. exact H.
+Qed.
+
+Lemma nzhead_not_D0 : forall u v, nzhead u <> D0 v.
+Proof. induction u; intros v; cbn [nzhead]; try discriminate. apply IHu. Qed.
+
+Lemma unorm_fix_head : forall v, unorm (D0 v) = D0 v -> v = Nil.
+Proof.
+  intros v H. unfold unorm in H. cbn [nzhead] in H.
+  destruct (nzhead v) eqn:E; try discriminate H.
+  - injection H as H. symmetry. exact H.
+  - exfalso. eapply nzhead_not_D0. exact E.
+Qed.
+
+Lemma canonical_pos_head : forall c r, all_digits (c :: r) = true -> (c =? CH0) = false ->
+  canonical_int (c :: r) = true.
+Proof.
+  intros c r Hd H0. cbn [canonical_int]. rewrite (digits_head_not_minus c r Hd), Hd, H0. reflexivity.
+Qed.
+
+Lemma canonical_neg_head : forall c r, all_digits (c :: r) = true -> (c =? CH0) = false ->
+  canonical_int (MINUS :: c :: r) = true.
+Proof.
+  intros c r Hd H0. cbn [canonical_int]. rewrite Z.eqb_refl, Hd, H0. reflexivity.
+Qed.
+
+Lemma to_int_norm_fix : forall z, norm (Z.to_int z) = Z.to_int z.
+Proof. intros z. rewrite <- DecimalZ.to_of, DecimalZ.of_to. reflexivity. Qed.
+
+(* what FIXInt.Write produces is canonical *)
+Lemma itoa_is_canonical : forall z, canonical_int (itoa z) = true.
+Proof.
+  intros z. pose proof (to_int_norm_fix z) as Hfix. unfold itoa.
+  destruct (to_int_cases z) as (u & Hu & [[_ E] | [Hneg E]]); rewrite E in *.
+  - cbn [norm] in Hfix. injection Hfix as Hfix.
+    pose proof (uint_bytes_digits u) as Hd.
+    destruct u; try congruence;
+      try (cbn [uint_bytes] in *; apply canonical_pos_head; [exact Hd | reflexivity]).
+    rewrite (unorm_fix_head u Hfix). reflexivity.
+  - pose proof (uint_bytes_digits u) as Hd.
+    destruct u; try congruence;
+      try (cbn [uint_bytes] in *; apply canonical_neg_head; [exact Hd | reflexivity]).
+    (* Neg (D0 u) is not a normal form of a negative number *)
+    exfalso. cbn [norm nzhead] in Hfix.
+    destruct (nzhead u) eqn:En; try discriminate Hfix.
+    eapply nzhead_not_D0. exact En.
 Qed.
